@@ -446,3 +446,32 @@ def vcd_gen(rng, tier):
         if rng.random() < 0.2:
             o2f[("p", "q")] = "producer2"
         yield {"functions": fs, "output_to_func": o2f}
+
+
+# ---- pipefunc/_pipeline/_mapspec.py::_axes_from_dims (C10: add_mapspec_axis pads the existing dimensions with ':') ---------
+from .ty import Axes as _Axes  # noqa: E402
+
+DSI = TDict(TStr, TInt)
+
+
+def _afd_n(S, a):
+    d = S.ite(S.has(a.dims, a.p), lambda: a.dims[a.p], 1) if S.symbolic else a.dims.get(a.p, 1)
+    return S.ite(d - 1 > 0, d - 1, 0) if S.symbolic else max(d - 1, 0)
+
+
+axes_from_dims = Contract(
+    "pipefunc/_pipeline/_mapspec.py::_axes_from_dims", params={"p": TStr, "dims": DSI, "axis": TStr}, returns=_Axes,
+    ensures=lambda S, a, r, post: {
+        "one ':' per existing dimension but one, then the new axis": S.and_(
+            S.len(r) == _afd_n(S, a) + 1,
+            lambda: S.forall(0, _afd_n(S, a), lambda i: S.is_none(r[i])),
+            lambda: S.and_(S.not_(S.is_none(r[_afd_n(S, a)])), lambda: S.eq(S.some(r[_afd_n(S, a)]), a.axis))),
+    },
+)
+ALL += [axes_from_dims]
+
+
+def afd_gen(rng, tier):
+    for p in ("x", "y"):
+        for dims in ({}, {"x": 1}, {"x": 2}, {"x": 3, "y": 1}, {"x": 0}, {"y": 4}):
+            yield {"p": p, "dims": dims, "axis": "k"}
